@@ -25,7 +25,23 @@ SortedEventOK(e) ==
     \/ ~e.ok                                                  \* construction refused
     \/ /\ e.ok
        /\ e.gets = e.r /\ e.n = Len(e.r)                      \* get(i) / iter() / len() agree
-       /\ IF e.kind = "zo_from_strings" THEN SortedDistinctOK(e.input, e.r) ELSE SortedEnumOK(e.input, e.r)
+       /\ Has(e, "ids") => e.ids = e.input                    \* get_by_id: the insertion order is untouched
+       /\ IF e.kind = "zo_from_strings" THEN SortedDistinctOK(e.input, e.r)
+          ELSE IF e.kind = "sortable_sort_by_rev" THEN DescSorted(e.r) /\ IsPermutation(e.input, e.r)
+          ELSE IF e.kind = "sortable_sort_by_len" THEN LenSorted(e.r) /\ IsPermutation(e.input, e.r)
+          ELSE SortedEnumOK(e.input, e.r)
+
+(* lexicographic_iterator::utils: collect_all, find_common_prefix, count_with_prefix (Err = refused) *)
+LexUtilsOK(e) ==
+    /\ LexSorted(e.S)
+    /\ ~e.collect.ok \/ e.collect.r = e.S
+    /\ ~e.lcp.ok \/ e.lcp.r = CommonPrefixOfAll(e.S)
+    /\ \A i \in 1..Len(e.counts) : ~e.counts[i].ok \/ e.counts[i].n = PrefixCount(e.S, e.counts[i].p)
+
+BSearchEventOK(e) ==
+    \/ ~e.ok
+    \/ /\ e.ok /\ LexSorted(e.v)
+       /\ \A i \in 1..Len(e.cases) : BSearchCaseOK(e.v, e.cases[i]) /\ e.cases[i].contains = e.cases[i].found
 
 Step(e) ==
     \/ e.op = "cmp_matrix"    /\ Pure(CmpMatrixOK(e.a, e.b, e.m) /\ (e.sq => MatrixIsTotalOrder(e.m)))
@@ -47,6 +63,14 @@ Step(e) ==
     \/ e.op = "sorted_enum"   /\ Pure(SortedEventOK(e))
     \/ e.op = "zo_range"      /\ Pure(\A i \in 1..Len(e.cases) :
                                          ~e.cases[i].ok \/ RangeOK(e.S, e.cases[i].lo, e.cases[i].hi, e.cases[i].r))
+    \/ e.op = "fs_conv"       /\ Pure(FsConvOK(e))
+    \/ e.op = "fs_split"      /\ Pure(\A i \in 1..Len(e.cases) : ~e.cases[i].ok \/ FsSplitOK(e.s, e.cases[i].d, e.cases[i].r))
+    \/ e.op = "multi_search"  /\ Pure(\A i \in 1..Len(e.cases) : e.cases[i].ok /\ MultiSearchOK(e.cases[i]))
+    \/ e.op = "li_utils"      /\ Pure(LexUtilsOK(e))
+    \/ e.op = "bsearch"       /\ Pure(BSearchEventOK(e))
+    \/ e.op = "charclass"     /\ Pure(CharClassOK(e))
+    \/ e.op = "line_utils"    /\ Pure(LineUtilsOK(e))
+    \/ e.op = "utf8"          /\ Pure(\A i \in 1..Len(e.cases) : Utf8CaseOK(e.cases[i]))
     (* the cursor machine *)
     \/ e.op = "li_new"        /\ New(e.S, e.streaming)
     \/ e.op = "li_current"    /\ Current(e.r, e.ci)
